@@ -62,11 +62,11 @@ PROPS['C01'] = {
 PROPS['C04'] = {
     'module': 'Yabgp.Props.C04',
     'theorems': ['Yabgp.C04_terminates', 'Yabgp.C04_progress', 'Yabgp.C04_two_segments', 'Yabgp.C04_segmentation',
-                 'Yabgp.C04_framing_violation'],
+                 'Yabgp.C04_framing_violation', 'Yabgp.C04_deframer_is_rfc'],
     'genagree': SESSION_GEN,
     'suites': ['framing'],
-    'cannot': SESSION_CANNOT + '; the equivalence of the model deframer (headOf) with an independently written RFC '
-              'deframer is checked by the framing suite\'s reference deframer on the implementation, not yet by a theorem',
+    'cannot': SESSION_CANNOT + '; the model deframer is proved equal to an independently written RFC 4271 deframer (Spec/RfcFrame.lean, '
+              'C04_deframer_is_rfc); the framing suite applies its own reference deframer to the implementation',
 }
 
 PROPS['C10'] = {
@@ -143,11 +143,13 @@ PROPS['C12'] = {
 
 PROPS['C18'] = {
     'module': 'Yabgp.Props.C18',
-    'theorems': ['Yabgp.C18_received_counted_once', 'Yabgp.C18_sent_counted_once', 'Yabgp.C18_increments_are_single'],
+    'theorems': ['Yabgp.C18_received_counted_once', 'Yabgp.C18_received_cumulative', 'Yabgp.C18_sent_counted_once',
+                 'Yabgp.C18_increments_are_single'],
     'genagree': SESSION_GEN,
     'suites': ['session', 'framing'],
-    'cannot': SESSION_CANNOT + '; the theorems are per message / per send (exact increment, nothing else touches the counter); '
-              'the cumulative equality over a whole history is checked by the oracle against the transport write log',
+    'cannot': SESSION_CANNOT + '; received side: cumulative over any byte stream (C18_received_cumulative: the counters move by exactly the '
+              'increments owed for the frames dispatched, in order); sent side: per send (counted once, written once on the tracked '
+              'connection) - the cumulative equality with the transport write log over a whole history is checked by the oracle',
 }
 
 PROPS['C09'] = {
